@@ -395,6 +395,18 @@ func (w *World) violate(prop, oracle, format string, args ...interface{}) {
 	w.ev("VIOLATION %s/%s %s", prop, oracle, w.viol.Detail)
 }
 
+// guardAPI runs one call of the library's public API on a consumer thread of the harness: a panic that comes out of
+// the call to its caller is a verdict (C12: "never panic out to the caller"), not a crash of the simulator.
+func (w *World) guardAPI(name string, call func()) {
+	defer func() {
+		if r := recover(); r != nil {
+			w.probe("api-call-panicked")
+			w.violate("C12", "api-call-panicked", "%s panicked out to its caller: %v | %s", name, r, compactStack())
+		}
+	}()
+	call()
+}
+
 // checks reports whether oracles of property p are evaluated in this run.
 func (w *World) checks(p string) bool {
 	if w.cfg.Oracles == nil {
@@ -702,7 +714,7 @@ func (w *World) deliver(f *Flight) {
 		n.curMsg = m
 	}
 	lh, ctx := n.lh, n.ctx
-	go lh.HandleConsensusMessage(ctx, f.raw)
+	go w.guardAPI("HandleConsensusMessage", func() { lh.HandleConsensusMessage(ctx, f.raw) })
 	w.quiesce()
 	w.postDeliver(n, rec)
 }
